@@ -125,6 +125,10 @@ func (mp *MotionProcessor) Process(rawFrame []byte) error {
 }
 
 func (mp *MotionProcessor) processSnapshot(frame *cptvframe.Frame) {
+	if mp.StartSnapshot && mp.SnapshotRecording {
+		// a test recording is already in progress, don't start another one on top of it
+		mp.StartSnapshot = false
+	}
 	if mp.StartSnapshot {
 		mp.log.Printf("making a snapshot")
 		mp.StartSnapshot = false
